@@ -79,16 +79,40 @@ def replay_plot(inp):
             s = S()
             s.name, s.valid, s.flux, s.error = 'src_p', np.array([4, 4]), np.array([0.1, 0.2]), np.array([0.1, 0.1])
             info.source = s
-            info.av, info.sc, info.chi2 = np.array([1.0, 2.0])[:nsel], np.array([0.1, 0.0])[:nsel], np.array([1.0, 2.0])[:nsel]
+            # (multi-aperture: scales that keep 3" and 5" inside the 1000-2000 AU table)
+            info.av, info.sc, info.chi2 = np.array([1.0, 2.0])[:nsel], (np.array([0.1, 0.0]) if n_ap == 1 else np.array([-0.45, -0.41]))[:nsel], np.array([1.0, 2.0])[:nsel]
             info.model_name = np.array(names[:nsel], dtype='U30')
             info.model_id = np.arange(nsel)
             cols = (2, 0) if False else (0, 2)
             info.model_fluxes = np.array([[np.log10(val[i, 0, c_]) + info.av[i] * k[f] - 2 * info.sc[i] for f, c_ in enumerate((0, 2))] for i in range(nsel)])
             info.meta.model_dir, info.meta.filters, info.meta.extinction_law = d, filters, e
+            SEDc = ld.load('sedfitter.sed.sed').SED
+            seen = []
+            r_i, r_iv = SEDc.interpolate, SEDc.interpolate_variable
+
+            def o_i(self_, apertures):
+                seen.append(('interpolate', self_.name, np.array(getattr(apertures, 'value', apertures), dtype=float).reshape(-1)))
+                return r_i(self_, apertures)
+
+            def o_iv(self_, wavelengths, apertures):
+                seen.append(('interpolate_variable', self_.name, np.array(getattr(apertures, 'value', apertures), dtype=float).reshape(-1)))
+                return r_iv(self_, wavelengths, apertures)
+            SEDc.interpolate, SEDc.interpolate_variable = o_i, o_iv
             try:
                 figs = PL.plot(info, output_dir=None, select_format=('A', 0), sed_type=sed_type)
             except Exception as ex:  # noqa: BLE001
                 return True, {'raised': '%s: %s' % (type(ex).__name__, ex)}
+            finally:
+                SEDc.interpolate, SEDc.interpolate_variable = r_i, r_iv
+            want_ap = {'interp': list(aps), 'largest': [max(aps)], 'largest+smallest': [min(aps), max(aps)], 'all': sorted(set(aps))}[sed_type]
+            top = [x for x in seen if x[0] == ('interpolate_variable' if sed_type == 'interp' else 'interpolate')]
+            if len(top) != nsel:
+                return True, {'interpolate_calls': len(top), 'expected': nsel}
+            for pos, (_k, nme, got) in enumerate(top):
+                fit = nsel - 1 - pos
+                want = np.array(want_ap) * 10. ** info.sc[fit] * 1000.
+                if str(nme).strip() != names[fit] or len(got) != len(want) or not np.allclose(got, want, rtol=1e-9):
+                    return True, {'fit': fit, 'sed': str(nme), 'apertures_passed_AU': got.tolist(), 'expected_AU': want.tolist()}
             segs = figs['src_p']['lines'].get_segments()
             ncur = N_CURVES[sed_type](len(set(aps)) if sed_type == 'all' else n_ap)
             if len(segs) != nsel * ncur:
